@@ -917,6 +917,39 @@ func checkC17(c *Ctx) {
 				}
 			}
 		}
+		// a local bound to a shared slice (x := shared, x := shared[:n], x := append(shared, …) — which writes into the
+		// shared backing array whenever it has spare capacity) denotes the same storage
+		for round := 0; round < 3; round++ {
+			ast.Inspect(fd.Body, func(n ast.Node) bool {
+				as, ok := n.(*ast.AssignStmt)
+				if !ok || len(as.Lhs) != len(as.Rhs) {
+					return true
+				}
+				for i, l := range as.Lhs {
+					id, ok := l.(*ast.Ident)
+					if !ok {
+						continue
+					}
+					rhs := ast.Unparen(as.Rhs[i])
+					if sl, ok := rhs.(*ast.SliceExpr); ok {
+						rhs = ast.Unparen(sl.X)
+					}
+					if call, ok := rhs.(*ast.CallExpr); ok {
+						if fid, ok := call.Fun.(*ast.Ident); ok && fid.Name == "append" && len(call.Args) > 0 {
+							rhs = ast.Unparen(call.Args[0])
+						}
+					}
+					if rid, ok := rhs.(*ast.Ident); ok && shared[ep.Info.ObjectOf(rid)] {
+						if o := ep.Info.ObjectOf(id); o != nil {
+							if _, isSlice := o.Type().Underlying().(*types.Slice); isSlice {
+								shared[o] = true
+							}
+						}
+					}
+				}
+				return true
+			})
+		}
 		// range variables over shared slices that are pointers also denote shared objects
 		ast.Inspect(fd.Body, func(n ast.Node) bool {
 			if rs, ok := n.(*ast.RangeStmt); ok {
